@@ -409,6 +409,17 @@ def run_c13(tier, seed):
         validated += 1
         npar += 1 if c["par"] else 0
         distinct.add(c["desc"])
+    # real sockets: clients that connect at the SAME moment (the accept loop hands each socket to its own goroutine): each selects
+    # its own database and must see it, and one connection identity, on all of its later requests
+    import lifeprops
+    brows, bo = lifeprops.run_mode(chk, "burst", ["12" if tier == "quick" else "100", "6"], timeout=300)
+    for r in brows:
+        if r.get("problems"):
+            chk.violation("simultaneous-connects", "%d clients connecting at the same moment, each: SELECT <own db> ; 3 x what does the handler see (round %d): %s" %
+                          (r.get("clients", 0), r.get("round", 0), " ; ".join(r["problems"])[:500]), dict(row=r))
+        elif not r.get("error"):
+            validated += 1
+    chk.coverage["simultaneous_connect_rounds"] = len(brows)
     if races and not chk.violations:
         chk.violation("data-race", "the race detector reported a data race while connections were served concurrently: " + races[0][-600:].replace("\n", " | "),
                       dict(report=races[0]))
